@@ -17,7 +17,7 @@ from .c05 import model_kind
 
 class C08(AstKindProp):
     id = "C08"
-    quick_cases = 700
+    quick_cases = 1500
     thorough_cases = 20000
     rule = (
         "case = (IR, kind in rest/numpydoc/google/class/function/method/argparse, emitter options: default text on/off, "
@@ -133,6 +133,12 @@ class C08(AstKindProp):
             f = classify_doc_ir(ir, k, edd)
             return f
         helper = {"class": C02, "function": C03, "method": C03, "argparse": C04}[k]
+        if fl.get("what") == "second and third emission differ":
+            # measured on the unchanged tree: the function kinds are stable after the first pass whatever the entries
+            # look like; for class and argparse only these findings make the emissions drift
+            drift = {"class": ("AST-code-default", "AST-untyped-entry", "AST-prose-starting-with-optional-wraps-the-type"),
+                     "argparse": ("AST-code-default", "AST-untyped-entry")}.get(k, ())  # fmt: skip
+            return next((cid for cid, _, _ in self.explain(c) if cid in drift), None)
         base = AstKindProp.classify(self, c, fl)
         if base:
             return base
